@@ -58,7 +58,7 @@ Print Assumptions C03_trailer.
 
 (* non-vacuity: a data-dependent repetition  let n = N in "a"{n}  on "2aa" *)
 Definition ex_g : list (list nat * expr) :=
-  [([], Let 1 (Ref 1) (Rep (Str [97] false) (BVar 1) (BVar 1)));
+  [([], Let 1 false (Ref 1) (Rep (Str [97] false) (BVar 1) (BVar 1)));
    ([], Apply (Rx 0 false) (Py (PFn FInt)) false)].
 Definition ex_rx (id p : nat) : option nat := if Nat.eqb p 0 then Some 1 else None.
 Example C03_data_dependent_runs :
